@@ -17,6 +17,8 @@ package main
 import (
 	"encoding/binary"
 	"fmt"
+	"io"
+	"net"
 	"net/netip"
 	"strconv"
 	"strings"
@@ -33,6 +35,7 @@ func init() {
 	register("policy", 8, runPolicy)
 	register("ttl", 8, runTTL)
 	register("cachehist", 64, runCacheHist)
+	register("routerhist", 64, runRouterHist)
 }
 
 var (
@@ -376,6 +379,177 @@ func runCacheHist(id string, parts []string) string {
 				if time.Since(t0)-op.at > c08Late {
 					late = true
 				}
+			}
+			res = strings.Join(out, " ")
+			if !late {
+				return res
+			}
+		}
+		return "HARNESS-ERROR late " + res
+	})
+}
+
+// ---------------------------------------------------------------- routerhist
+//   routerhist: <id> maxttl=<cfg secs> ops=q.<at ms>.<key>.<beh>,...
+//     a real router (real run(): real upstream "tcp://127.0.0.1:port", forward-all rule, memory cache) is fed client
+//     queries through handleServerReq; the scripted upstream answers the query of op i with <beh>:
+//       p<ttl> NOERROR, A records with TTL ttl and ttl+5 | nx NXDOMAIN | nd NOERROR without records | sf SERVFAIL |
+//       rf REFUSED | tc truncated NOERROR (TTL 60) | fail (connection closed without a reply)
+//     -> one token per query: <U|C><rcode>[t]:<ttl_ttl>   U = the upstream was contacted during this query
+type c08Upstream struct {
+	l    net.Listener
+	mu   sync.Mutex
+	beh  string
+	hits int
+}
+
+func (u *c08Upstream) serve() {
+	for {
+		c, err := u.l.Accept()
+		if err != nil {
+			return
+		}
+		go func() {
+			defer c.Close()
+			for {
+				var h [2]byte
+				if _, err := io.ReadFull(c, h[:]); err != nil {
+					return
+				}
+				q := make([]byte, binary.BigEndian.Uint16(h[:]))
+				if _, err := io.ReadFull(c, q); err != nil {
+					return
+				}
+				u.mu.Lock()
+				u.hits++
+				beh := u.beh
+				u.mu.Unlock()
+				qe := hx.QuestionEnd(q)
+				if qe < 0 || beh == "fail" {
+					return
+				}
+				name := q[12 : qe-5]
+				var r []byte
+				id := binary.BigEndian.Uint16(q)
+				switch {
+				case beh == "nx":
+					r = c08Wire(id, name, 3, false, nil)
+				case beh == "nd":
+					r = c08Wire(id, name, 0, false, nil)
+				case beh == "sf":
+					r = c08Wire(id, name, 2, false, nil)
+				case beh == "rf":
+					r = c08Wire(id, name, 5, false, nil)
+				case beh == "tc":
+					r = c08Wire(id, name, 0, true, []uint32{60})
+				case strings.HasPrefix(beh, "p"):
+					t, _ := strconv.ParseUint(beh[1:], 10, 32)
+					r = c08Wire(id, name, 0, false, []uint32{uint32(t), uint32(t) + 5})
+				default:
+					return
+				}
+				out := binary.BigEndian.AppendUint16(nil, uint16(len(r)))
+				if _, err := c.Write(append(out, r...)); err != nil {
+					return
+				}
+			}
+		}()
+	}
+}
+
+type c08QOp struct {
+	at  time.Duration
+	key int
+	beh string
+}
+
+var c08KeepAlive sync.Once
+
+func runRouterHist(id string, parts []string) string {
+	f := hx.Fields(parts)
+	maxttl := hx.MustAtoi(f["maxttl"])
+	var ops []c08QOp
+	for _, tok := range strings.Split(f["ops"], ",") {
+		p := strings.Split(tok, ".")
+		if len(p) != 4 || p[0] != "q" {
+			return "HARNESS-ERROR bad op " + tok
+		}
+		at, _ := strconv.Atoi(p[1])
+		key, _ := strconv.Atoi(p[2])
+		ops = append(ops, c08QOp{time.Duration(at) * time.Millisecond, key, p[3]})
+	}
+	return guard(id, 90*time.Second, func() string {
+		router.VerifC08Quiet()
+		// otter's clock is process-global and restarts when the last cache closes: keep one cache open
+		c08KeepAlive.Do(func() { c08Cache(0) })
+		l, err := net.Listen("tcp", "127.0.0.1:0")
+		if err != nil {
+			return "HARNESS-ERROR " + err.Error()
+		}
+		up := &c08Upstream{l: l}
+		go up.serve()
+		defer l.Close()
+		cfg := &router.Config{
+			Upstreams: []router.UpstreamConfig{{Tag: "u", Addr: "tcp://" + l.Addr().String()}},
+			Rules:     []router.RuleConfig{{Forward: "u"}},
+			Cache:     router.CacheConfig{MemSize: 1 << 22, MaximumTTL: maxttl},
+		}
+		r, err := router.VerifC08Run(cfg)
+		if err != nil {
+			return "HARNESS-ERROR " + err.Error()
+		}
+		defer r.Close()
+		remote := netip.MustParseAddrPort("127.0.0.9:5353")
+		res := ""
+		for attempt := 0; attempt < 2; attempt++ {
+			late := false
+			var out []string
+			t0 := time.Now()
+			for _, op := range ops {
+				if d := time.Until(t0.Add(op.at)); d > 0 {
+					time.Sleep(d)
+				}
+				if time.Since(t0)-op.at > c08Late {
+					late = true
+				}
+				up.mu.Lock()
+				up.beh = op.beh
+				before := up.hits
+				up.mu.Unlock()
+				name := c08Name(id, attempt*1000+op.key)
+				qm, err := dnsmsg.UnpackMsg(hx.BuildQuery(0x4242, name, 1, 1, true))
+				if err != nil {
+					return "HARNESS-ERROR query"
+				}
+				resp := r.Query(qm, remote)
+				dnsmsg.ReleaseMsg(qm)
+				if time.Since(t0)-op.at > c08Late {
+					late = true
+				}
+				up.mu.Lock()
+				fetched := up.hits > before
+				up.mu.Unlock()
+				if resp == nil {
+					out = append(out, "NIL")
+					continue
+				}
+				var ts []string
+				for _, rr := range resp.Answers {
+					ts = append(ts, strconv.FormatUint(uint64(rr.Hdr().TTL), 10))
+				}
+				tok := "C"
+				if fetched {
+					tok = "U"
+				}
+				tok += strconv.Itoa(int(resp.Header.RCode))
+				if resp.Header.Truncated {
+					tok += "t"
+				}
+				if resp.Header.ID != 0x4242 {
+					tok += "!id"
+				}
+				out = append(out, tok+":"+strings.Join(ts, "_"))
+				dnsmsg.ReleaseMsg(resp)
 			}
 			res = strings.Join(out, " ")
 			if !late {
